@@ -199,96 +199,122 @@ def const_array_len(ctx, o):
 
 
 def encode_order(ctx, rep):
-    """R3.4: one placeholder byte first, then the packet, then the length taken from the same buffer, then the byte that
-    encode_length returned stored at index 0 of that buffer - either by rewinding the cursor and writing one byte, or by
-    `data[0] = n` on the buffer taken out of the cursor."""
+    """R3.4: the frame Codec::encode returns is [size byte][packet bytes], the size byte being what encode_length returned for
+    the whole length.  Decided by replaying the function's path table (private helpers of the module inlined; conditions, calls
+    and stores in execution order, lib/framesim.py) over an abstract frame buffer for several packet lengths: the packet is
+    written at offset 1 (exactly one placeholder byte first), the buffer ends up 1 + P bytes long, byte 0 holds the value
+    encode_length returned for 1 + P - however the patch is spelled (rewind and write one byte, `data[0] = n`, a helper type
+    around the cursor) - and a failure of the packet writer, of encode_length or of the patch write ends the call with an error."""
+    import framesim
+    from mirq import inline_calls, simplify
     b = ctx.mir.body("insim::net::codec::Codec::encode")
     if b is None:
         rep.fail("R3.4", "found", "Codec::encode not found")
         return
     rep.fn(b.name)
-    from mirq import inline_calls
     ib = inline_calls(b, lambda d: d.startswith("insim::net::codec::") and "{closure" not in d and not d.endswith(("Codec::encode", "Codec::decode", "Codec::mode", "Codec::new")), depth=3)
     if ib is not b:
         rep.notes.append("R3.4: private helper(s) of insim::net::codec inlined into Codec::encode")
         b = ib
-    cur = b.calls_to(r"io::cursor::Cursor::<T>::new$")
-    W0 = b.calls_to(r"^std::io::Write::write$")
-    P = [(bb, t) for bb, t in b.calls_to(r"binrw::binwrite::BinWrite::write$") if callee(t)[2] and callee(t)[2][0] == "insim::packet::Packet"]
-    POS = b.calls_to(r"Cursor::<T>::position$")
-    EL = b.calls_to(r"Mode::encode_length$")
-    SP = b.calls_to(r"Cursor::<T>::set_position$")
-    WA = b.calls_to(r"^std::io::Write::write_all$")
-    INTO = b.calls_to(r"Cursor::<T>::into_inner$")
-    IDX = b.calls_to(r"IndexMut::index_mut$")
-    base_ok = all(len(x) == 1 for x in (cur, W0, P, POS, EL, INTO))
-    form_a = base_ok and len(SP) == 1 and len(WA) == 1 and not IDX
-    form_b = base_ok and not SP and not WA and len(IDX) == 1
-    ok = form_a or form_b
-    rep.check("R3.4", "anchors", ok, "Codec::encode: expected one each of Cursor::new, Write::write (placeholder), Packet::write, position, encode_length, into_inner and a patch of byte 0 "
-              "(set_position + write_all, or index 0 of the buffer); found %s" % [len(x) for x in (cur, W0, P, POS, EL, SP, WA, INTO, IDX)], b.loc(),
-              sample={"counts": [len(x) for x in (cur, W0, P, POS, EL, SP, WA, INTO, IDX)], "patch": "rewind+write" if form_a else "index" if form_b else "?"})
-    if not ok:
+    try:
+        rows = b.decision_rows(events=True)
+    except Exception as ex:
+        rep.fail("R3.4", "anchors", "path table of Codec::encode not extractable (%s)" % ex, b.loc())
         return
-    cbb = cur[0][0]
+    EL = b.calls_to(r"Mode::encode_length$")
+    P_ = [(bb, t) for bb, t in b.calls_to(r"binrw::binwrite::BinWrite::write$") if callee(t)[2] and callee(t)[2][0] == "insim::packet::Packet"]
+    rep.check("R3.4", "anchors", len(EL) == 1 and len(P_) == 1 and any(r[1][1] == "Ok" for r in rows),
+              "Codec::encode: expected one Packet::write, one Mode::encode_length and a path returning Ok (found %d / %d)" % (len(P_), len(EL)), b.loc(),
+              sample={"paths": len(rows)})
+    if not (len(EL) == 1 and len(P_) == 1):
+        rep.floor("R3.4", 7)
+        return
 
-    def on_cursor(t, i=0):
-        return any(c[4] == cbb for c in origin_calls(b.origin(t["args"][i])))
-
-    users = [W0[0], POS[0], INTO[0]] + ([SP[0], WA[0]] if form_a else [IDX[0]])
-    same = all(on_cursor(t) for _bb, t in users) and on_cursor(P[0][1], 1)
-    rep.check("R3.4", "one-buffer", same, "placeholder, packet, position, patch and into_inner must all act on the same cursor / its buffer", b.loc())
-    # placeholder: exactly one byte
-    pl = const_array_len(ctx, b.origin(W0[0][1]["args"][1]))
-    okp = pl is not None and pl[0] == 1
-    rep.check("R3.4", "placeholder", okp, "the size placeholder must be exactly one byte written first (found %s)" % fmt_origin(b.origin(W0[0][1]["args"][1])), b.loc(W0[0][1]["line"]),
-              sample={"placeholder": fmt_origin(b.origin(W0[0][1]["args"][1])), "bytes": pl[0] if pl else None})
-    tr = b.try_of_call(EL[0][0])
-    if form_a:
-        order = [W0[0][0], P[0][0], POS[0][0], EL[0][0], SP[0][0], WA[0][0], INTO[0][0]]
-    else:
-        order = [W0[0][0], P[0][0], POS[0][0], EL[0][0], INTO[0][0], IDX[0][0]]
-    okd = all(b.dominates(order[i], order[i + 1]) for i in range(len(order) - 1))
-    rep.check("R3.4", "order", okd, "required order placeholder -> Packet::write -> position -> encode_length -> patch of byte 0 is not enforced by dominance (blocks %s)" % order,
-              b.loc(), sample={"blocks": order})
-    # encode_length(self.mode(), position as usize)
+    def array_len(o):
+        x = strip_refs(o)
+        while x[0] in ("cast", "deref"):
+            x = strip_refs(x[4] if x[0] == "cast" else x[1])
+        if x[0] == "agg" and x[1][0] == "array":
+            return (len(x[2]), x[2][0] if len(x[2]) == 1 else None)
+        if x[0] == "repeat" and len(x) > 2:
+            try:
+                n = int(x[2])
+            except (TypeError, ValueError):
+                n = None
+            if n is None:
+                cs = ctx.ast.const(str(x[2]).split("::")[-1])
+                if len(cs) == 1:
+                    from astq import eval_int
+                    try:
+                        n = eval_int(cs[0][3]["value"])
+                    except Exception:
+                        n = None
+            return (n, x[1] if n == 1 else None) if n is not None else None
+        r = const_array_len(ctx, o)
+        return (r[0], None) if r else None
+    sim = framesim.FrameSim(ctx, b, rows, array_len)
+    bad = {"evaluated": None, "placeholder": None, "frame-length": None, "patch-value": None}
+    n_ok = 0
+    for P in (3, 7, 19, 251, 1019):
+        outs = sim.run(P)
+        for o in outs:
+            if o["trap"]:
+                bad["evaluated"] = bad["evaluated"] or "packet of %d bytes: %s" % (P, o["trap"])
+                continue
+            if o["result"] != "Ok":
+                continue
+            f = o["final"]
+            if not f:
+                bad["evaluated"] = bad["evaluated"] or "packet of %d bytes: the returned bytes are not the frame buffer (%s)" % (P, ", ".join(o["ops"]))
+                continue
+            n_ok += 1
+            where = "packet of %d bytes (%s)" % (P, ", ".join(o["ops"]))
+            if f["pk"] != 1:
+                bad["placeholder"] = bad["placeholder"] or "%s: the packet starts at offset %s - exactly one size byte must precede it" % (where, f["pk"])
+            if f["len"] != 1 + P:
+                bad["frame-length"] = bad["frame-length"] or "%s: the frame is %d bytes long, not 1 + %d" % (where, f["len"], P)
+            if f["b0"] != ("el", 1 + P):
+                bad["patch-value"] = bad["patch-value"] or "%s: byte 0 holds %s, not the value encode_length returned for the frame length %d" % (where, f["b0"], 1 + P)
+    if n_ok == 0 and bad["evaluated"] is None:
+        bad["evaluated"] = "no path returns a frame"
+    rep.check("R3.4", "evaluated", bad["evaluated"] is None, "Codec::encode's path table could not be replayed: %s" % bad["evaluated"], b.loc(), sample={"frames_evaluated": n_ok})
+    rep.check("R3.4", "placeholder", bad["placeholder"] is None, bad["placeholder"] or "", b.loc(P_[0][1]["line"]))
+    rep.check("R3.4", "order", bad["frame-length"] is None, bad["frame-length"] or "", b.loc())
+    rep.check("R3.4", "patch-value", bad["patch-value"] is None, bad["patch-value"] or "", b.loc(EL[0][1]["line"]), sample={"byte0": "encode_length(1 + packet length)"})
+    # encode_length is asked in the connection's own mode
     a0 = b.origin(EL[0][1]["args"][0])
-    a1 = b.origin(EL[0][1]["args"][1])
     m0 = strip_refs(a0)
     while m0[0] == "deref":
         m0 = strip_refs(m0[1])
     okm = any(c[1].endswith("Codec::mode") for c in origin_calls(a0)) or (m0[0] == "field" and m0[3] == "mode" and strip_refs(m0[1]) in (("arg", 1), ("deref", ("arg", 1))))
-    x = a1
-    while x[0] == "cast":
-        x = x[4]
-    okl = x[0] == "call" and x[4] == POS[0][0]
-    rep.check("R3.4", "length-source", okm and okl, "encode_length must be given self.mode() and the cursor position after writing (found %s, %s)" % (fmt_origin(a0), fmt_origin(a1)), b.loc(EL[0][1]["line"]))
-    if form_a:
-        z = b.origin(SP[0][1]["args"][1])
-        rep.check("R3.4", "patch-at-0", z[0] == "const" and z[1] == 0, "the size byte must be patched at position 0", b.loc(SP[0][1]["line"]))
-        wo = strip_refs(b.origin(WA[0][1]["args"][1]))
-        while wo[0] == "cast":
-            wo = strip_refs(wo[4])
-        okn = wo[0] == "agg" and wo[1][0] == "array" and len(wo[2]) == 1 and tr is not None and any(c[4] == tr[0] for c in origin_calls(wo[2][0]))
-        rep.check("R3.4", "patch-value", okn, "exactly the byte returned by encode_length must be written at position 0 (found %s)" % fmt_origin(wo), b.loc(WA[0][1]["line"]), sample={"patched": fmt_origin(wo)})
-        sites = (("packet-write", P[0]), ("encode_length", EL[0]), ("patch", WA[0]))
-    else:
-        ibb, it = IDX[0]
-        z = b.origin(it["args"][1])
-        rep.check("R3.4", "patch-at-0", z[0] == "const" and z[1] == 0, "the size byte must be patched at index 0 (found %s)" % fmt_origin(z), b.loc(it["line"]))
-        dest = it["dest"]["l"]
-        stores = [(i, st) for i, bl in enumerate(b.blocks) for st in bl["stmts"]
-                  if st["k"] == "assign" and st["place"]["l"] == dest and st["place"]["p"] == ["deref"]]
-        okn = False
-        found = None
-        if len(stores) == 1 and stores[0][1]["rv"]["k"] == "use":
-            vo = b.origin(stores[0][1]["rv"]["x"])
-            found = fmt_origin(vo)
-            okn = tr is not None and any(c[4] == tr[0] for c in origin_calls(vo)) and b.dominates(ibb, stores[0][0])
-        rep.check("R3.4", "patch-value", okn, "exactly the byte returned by encode_length must be stored at index 0 (found %s)" % found, b.loc(it["line"]), sample={"patched": found})
-        sites = (("packet-write", P[0]), ("encode_length", EL[0]))
-    for nm, site in sites:
-        t = b.try_of_call(site[0])
-        rep.check("R3.4", "propagates:%s" % nm, t is not None and b.ret_kinds(t[3]) == {"residual"}, "the error of %s must be returned" % nm, b.loc(site[1]["line"]), nontrivial=False)
-    # the returned frame is that buffer
+    rep.check("R3.4", "length-source", okm, "encode_length must be asked in the codec's own mode (found %s)" % fmt_origin(a0), b.loc(EL[0][1]["line"]))
+    # failures end the call: on the path table, a path that takes the failure answer of the packet writer / encode_length / a write
+    # into the buffer returns an error
+    watched = {P_[0][0]: "packet-write", EL[0][0]: "encode_length"}
+    for bb, t in b.calls_to(r"^std::io::Write::(write|write_all)$"):
+        watched[bb] = "patch"
+    seen = {}
+    for conds, ret, _tr in rows:
+        for c in conds:
+            o = c[4]
+            if not (o[0] == "discr" and c[2] == "eq" and tuple(c[3]) == (1,)):
+                continue
+            x = simplify(o[1])
+            if x[0] == "call" and (x[1] or "").endswith("Try::branch") and x[3]:
+                x = simplify(x[3][0])
+            if x[0] == "call" and len(x) > 4 and x[4] in watched:
+                kind = ret[1]
+                if kind == "use" and len(ret) > 3 and ret[3]:
+                    y = simplify(ret[3][0])
+                    if y[0] == "call" and (y[1] or "").endswith("FromResidual::from_residual"):
+                        kind = "Err"
+                    elif y[0] == "agg" and y[1][0] == "adt" and y[1][1] == "core::result::Result":
+                        kind = y[1][3]
+                good = kind == "Err" or (kind.startswith("call:") and "from_residual" in kind) or kind == "diverge"
+                nm = watched[x[4]]
+                seen[nm] = seen.get(nm, True) and good
+    for nm in ("packet-write", "encode_length"):
+        rep.check("R3.4", "propagates:%s" % nm, seen.get(nm) is True, "a failure of %s must end Codec::encode with that error" % nm, b.loc(), nontrivial=False)
+    if "patch" in seen:
+        rep.check("R3.4", "propagates:patch", seen["patch"], "a failure of the write that patches the size byte must end Codec::encode with that error", b.loc(), nontrivial=False)
     rep.floor("R3.4", 7)
